@@ -15,7 +15,7 @@ func init() {
 		Explanation: "Decides the error-discipline and persist-before-act clauses behind 'crashes and API errors never corrupt a rollout': (R6.1) for every call in the controller and traffic-routing packages whose callee returns an error and can have an effect (client writes and reads, finalizer updates, provider / manager / control-plane methods, repository helpers), no path on which the error may be non-nil reaches a return that does not return it, unless it was handed to a non-logging function, stored, or is an accepted NotFound/AlreadyExists outcome (path-sensitive through phis, so an error overwritten by a later loop iteration counts as lost); " +
 			"(R6.2) the BatchRelease executor acts only when syncStatusBeforeExecuting did not ask to stop, and it asks to stop whenever the recomputed status differs from the persisted one; (R6.3) every closure run under the grace wrapper, and the grace wrapper itself, reports 'modified/retry' exactly when a write happened, returns errors before any fast path, and every Manager method with retry semantics returns (true, nil) only from the grace wrapper; " +
 			"(R6.4) the canary Deployment is created only when none was discovered and creation expectations are satisfied; (R6.5) objects that only carry their key are never read before a successful client call filled them in (whole-program typestate).",
-		NotDecided: "that the final cluster state equals that of an undisturbed run; absence of leaked resources under arbitrary fault sequences; API-server semantics.",
+		NotDecided:  "that the final cluster state equals that of an undisturbed run; absence of leaked resources under arbitrary fault sequences; API-server semantics.",
 		Assumptions: []string{"logging an error is not handling it; passing it to any other function, storing it, or returning it (possibly wrapped) is"},
 	})
 }
@@ -284,8 +284,11 @@ func checkCanaryCreateOnce(c *Ctx, rule string) {
 	if cr := p.Func("pkg/controller/batchrelease/control/canarystyle/deployment.realCanaryController.create"); cr != nil {
 		for _, w := range writeSitesIn(cr, nil) {
 			reach, _ := CanReach(PointAfter(w.(ssa.Instruction)), IsReturn, ReachOpts{
-				CutEdge:  func(b *ssa.BasicBlock, k int) bool { return EdgeFactMatches(b, k, FNotNil(MResultOf(w, -1))) },
-				CutInstr: func(in ssa.Instruction) bool { ci, ok := in.(ssa.CallInstruction); return ok && strings.HasSuffix(CalleeName(ci.Common()), ".Expect") },
+				CutEdge: func(b *ssa.BasicBlock, k int) bool { return EdgeFactMatches(b, k, FNotNil(MResultOf(w, -1))) },
+				CutInstr: func(in ssa.Instruction) bool {
+					ci, ok := in.(ssa.CallInstruction)
+					return ok && strings.HasSuffix(CalleeName(ci.Common()), ".Expect")
+				},
 			})
 			c.Ob(rule, "realCanaryController.create#expect-after-create", w.Pos(), !reach, "a successful Create records a creation expectation before returning", ifs(reach, "return reachable after the successful Create without Expect()"))
 		}
